@@ -27,7 +27,8 @@ Composition modes of `generate_constraint` (Model/EmittedJoin.lean):
                                                     of `x0 = x1 ; x1 = 5` violates `x0 = x1`, the outer nesting satisfies both)
   join=and_ / or_ (mystic.constraints)              fixed_point_margin (a vector a solver leaves unchanged satisfies its
                                                     relation - for ALL systems, fed or not), member_idem,
-                                                    join_and_all_hold, join_or_some_holds
+                                                    join_and_all_hold, join_and_identity, join_or_some_holds, join_or_identity;
+                                                    compose_identity (every coupler list is the identity on feasible input)
 -/
 import MysticVerif.Proofs.Emitted
 import MysticVerif.Proofs.EmittedJoin
@@ -463,6 +464,21 @@ theorem compose_independent [DecidableEq C] (env : Env C K) (isPos : C → Bool)
   intro t ht
   exact key t.2.1 (by simp only [List.mem_map]; exact ⟨t.2, (hmem t.2).mpr ⟨t, ht, rfl⟩, rfl⟩)
 
+/-- **Identity of every composition mode.** If the input satisfies every relation with its margin, the function composed
+through ANY list of couplers returns the input unchanged (no independence hypothesis). -/
+theorem compose_identity [DecidableEq C] (env : Env C K) (isPos : C → Bool) (d : C)
+    (items : List (CType × Rel C × Assign C)) (x : List K)
+    (h : ∀ t ∈ items, recognise isPos d t.2.1 t.2.2 = true ∧ t.2.1.margin env t.2.2.factor x) :
+    compose env (items.map fun t => (t.1, t.2.2)) x = x := by
+  have hperm : (order items).Perm (items.map (·.2)) := order_perm items
+  have hmem : ∀ p, p ∈ order items → ∃ t ∈ items, t.2 = p := by
+    intro p hp; have := hperm.mem_iff.mp hp; simpa using this
+  have hcodes : order (items.map fun t => (t.1, t.2.2)) = (order items).map (·.2) :=
+    order_map (fun q : Rel C × Assign C => q.2) items
+  rw [(compose_eq_chain_order env _ x).1, hcodes]
+  exact chain_identity env isPos d ((order items).map (·.1)) ((order items).map (·.2)) x
+    (forall2_of_pairs _ _ (fun p hp => by obtain ⟨t, ht, rfl⟩ := hmem p hp; exact h t ht))
+
 /-- **Frame of every composition mode.** Coordinates that are no statement's target are untouched, whatever the couplers. -/
 theorem compose_frame (env : Env C K) (ws : List (CType × Assign C)) (x : List K) :
     (compose env ws x).length = x.length ∧
@@ -648,6 +664,108 @@ theorem join_and_all_hold [DecidableEq C] (env : Env C K) (isPos : C → Bool) (
     exact isBool_eval_nonneg env _ _ ((recognise_spec hrc).2.1 hc)
   · simp at hm
 
+private theorem andFirst_fixed {X : Type} (c : Nat → X → Option X) (n : Nat) (x : X)
+    (hfix : ∀ j, c (j % n) x = some x) :
+    ∀ (k i : Nat) (h : List X) (links : Nat),
+      Comb.andFirst c n k i h x false links = (List.replicate k x ++ h, x, false, links + k) := by
+  intro k
+  induction k with
+  | zero => intro i h links; simp [Comb.andFirst]
+  | succ k ih =>
+    intro i h links
+    unfold Comb.andFirst
+    have hy : Comb.applyM (c (i % n)) x = (x, false) := by unfold Comb.applyM; rw [hfix i]
+    simp only [hy, Bool.or_false, Bool.false_eq_true, if_false]
+    rw [ih (i + 1) (x :: h) (links + 1)]
+    have e1 : List.replicate k x ++ x :: h = List.replicate (k + 1) x ++ h := by
+      rw [List.replicate_succ', List.append_assoc]; rfl
+    rw [e1]
+    have e2 : links + 1 + k = links + (k + 1) := by omega
+    rw [e2]
+
+/-- **`join=and_` is the identity on jointly feasible input.** If every statement runs without raising at `x` and
+`x` satisfies every relation with its margin, `constraints.and_` over the solver members succeeds in its first pass
+(`n` member calls, no random draw) and returns `x` itself. -/
+theorem join_and_identity [DecidableEq C] (env : Env C K) (isPos : C → Bool) (d : C)
+    (rels : List (Rel C)) (codes : List (Assign C)) (x : List K) (draws : List (List K))
+    (hrec : List.Forall₂ (fun r c => recognise isPos d r c = true ∧ r.margin env c.factor x) rels codes)
+    (hdef : ∀ c ∈ codes, c.defined env x = true) (hn : codes ≠ []) :
+    joinAnd env codes x draws = (.success x (codes.length - 1) codes.length, { calls := codes.length }) := by
+  have hn' : codes.length ≠ 0 := by simpa using hn
+  have hfix : ∀ j, member env codes (j % codes.length) x = some x := by
+    intro j
+    have hlt : j % codes.length < codes.length := Nat.mod_lt _ (by omega)
+    unfold member
+    rw [List.getElem?_eq_getElem hlt]
+    simp only
+    rw [if_pos (hdef _ (List.getElem_mem hlt))]
+    have hlen := hrec.length_eq
+    have := List.forall₂_iff_get.mp hrec |>.2 (j % codes.length) (by omega) hlt
+    have hid := solver_identity_partial env isPos d _ _ x this.1 this.2
+    simp only [List.get_eq_getElem] at hid
+    rw [hid]
+  unfold joinAnd Comb.and_
+  rw [if_neg hn']
+  simp only [andFirst_fixed (member env codes) codes.length x hfix codes.length 0 [] 0]
+  have hw : Comb.lastAllEq (codes.length - 1) (List.replicate codes.length x) x = true := by
+    unfold Comb.lastAllEq
+    simp only [List.all_eq_true]
+    intro y hy
+    have := List.mem_of_mem_take hy
+    rw [List.eq_of_mem_replicate this]; simp
+  simp [hw]
+
+private theorem orFirst_fixed {X : Type} [BEq X] [LawfulBEq X] (c : Nat → X → Option X) (x : X) (i0 : Nat)
+    (hfix : c i0 x = some x) :
+    ∀ (k i : Nat) (h : List X) (calls : Nat), i ≤ i0 → i0 < i + k → (∀ j, i ≤ j → j ≤ i0 → c j x ≠ none) →
+      ∃ h' calls', Comb.orFirst c x k i h false calls = (some x, h', calls') := by
+  intro k
+  induction k with
+  | zero => intro i h calls h1 h2; omega
+  | succ k ih =>
+    intro i h calls h1 h2 hdef
+    unfold Comb.orFirst
+    cases hci : c i x with
+    | none => exact absurd hci (hdef i (Nat.le_refl _) h1)
+    | some y =>
+      have hy : Comb.applyM (c i) x = (y, false) := by unfold Comb.applyM; rw [hci]
+      simp only [hy, Bool.or_false, Bool.not_false, Bool.and_true]
+      by_cases hyx : y = x
+      · subst hyx; simp
+      · have hne : (y == x) = false := by simpa using hyx
+        simp only [hne, Bool.false_eq_true, if_false]
+        have hlt : i < i0 := by
+          rcases Nat.lt_or_ge i i0 with h | h
+          · exact h
+          · have : i = i0 := by omega
+            subst this; rw [hfix] at hci; exact absurd (Option.some.inj hci).symm hyx
+        exact ih (i + 1) (y :: h) (calls + 1) (by omega) (by omega) (fun j hj1 hj2 => hdef j (by omega) hj2)
+
+/-- **`join=or_` is the identity where one line already holds.** If the input satisfies the relation of member `i0` with
+its margin and members `0..i0` run without raising at `x`, `constraints.or_` over the solver members succeeds in its
+first pass and returns `x` itself. -/
+theorem join_or_identity [DecidableEq C] (env : Env C K) (isPos : C → Bool) (d : C)
+    (codes : List (Assign C)) (x : List K) (draws : List Nat) (i0 : Nat) (hi0 : i0 < codes.length)
+    (r : Rel C) (hrec : recognise isPos d r codes[i0] = true) (hm : r.margin env codes[i0].factor x)
+    (hdef : ∀ j, j ≤ i0 → ∀ (hj : j < codes.length), codes[j].defined env x = true) :
+    ∃ t l st, joinOr env codes x draws = (.success x t l, st) := by
+  have hfix : member env codes i0 x = some x := by
+    unfold member
+    rw [List.getElem?_eq_getElem hi0]
+    simp only
+    rw [if_pos (hdef i0 (Nat.le_refl _) hi0), solver_identity_partial env isPos d r _ x hrec hm]
+  have hnone : ∀ j, 0 ≤ j → j ≤ i0 → member env codes j x ≠ none := by
+    intro j _ hj
+    have hlt : j < codes.length := by omega
+    unfold member
+    rw [List.getElem?_eq_getElem hlt]
+    simp only
+    rw [if_pos (hdef j hj hlt)]; simp
+  obtain ⟨h', calls', hof⟩ := orFirst_fixed (member env codes) x i0 hfix codes.length 0 [x] 0 (by omega) (by omega) hnone
+  unfold joinOr Comb.or_
+  rw [hof]
+  exact ⟨0, 1, _, rfl⟩
+
 /-- **`join=or_`: a success satisfies at least one line.** Every success of `constraints.or_` over the solver members
 returns a vector at which at least one relation of the text holds (no independence hypothesis). -/
 theorem join_or_some_holds [DecidableEq C] (env : Env C K) (isPos : C → Bool) (d : C)
@@ -710,5 +828,29 @@ example :
   intro r hr r' hr' _ hge hle
   simp only [List.mem_cons, List.mem_nil_iff, or_false] at hr hr'
   rcases hr with rfl | rfl <;> rcases hr' with rfl | rfl <;> simp_all [Expr.eval]
+
+/-- composition modes: an independent two-line system `x0 > x2`, `x1 != 5` wrapped by an `outer` and an `inner` coupler
+satisfies the hypotheses of `compose_independent`; the couplers run the second statement first -/
+example :
+    let items : List (CType × Rel Nat × Assign Nat) :=
+      [(.outer, ⟨0, .gt, .var 2⟩, emit ⟨0, .gt, .var 2⟩ [] 11), (.inner, ⟨1, .ne, .num 5⟩, emit ⟨1, .ne, .num 5⟩ [] 11)]
+    (∀ t ∈ items, recognise (fun c => decide (0 < c)) 1 t.2.1 t.2.2 = true) ∧ (items.map (·.2.1.i)).Nodup ∧
+    (∀ t ∈ items, ∀ t' ∈ items, t'.2.1.rhs.mentions t.2.1.i = false) ∧
+    (∀ t ∈ items, ∀ t' ∈ items, t.2.2.factor.mentions t'.2.1.i = false) ∧
+    (order (items.map fun t => (t.1, t.2.2))).map (·.i) = [0, 1] := by
+  decide
+
+/-- `join=and_` / `join=or_` on the FED system `x1 = 5 ; x0 = x1` (solver order as `constraints_parser` emits it) at `[0, 0]`:
+`and_` succeeds after 3 member calls with an intact window (`links = 3 ≥ 2`) at `[5, 5]`, where both relations hold;
+`or_` returns the input, at which `x0 = x1` already holds (hypotheses of `join_and_all_hold` / `join_or_some_holds`) -/
+example :
+    let env : Env Nat ℚ := { ι := fun n => (n : ℚ), tol := 0, rel := 0 }
+    let rels : List (Rel Nat) := [⟨1, .eq, .num 5⟩, ⟨0, .eq, .var 1⟩]
+    let codes : List (Assign Nat) := [⟨1, .num 5⟩, ⟨0, .var 1⟩]
+    joinAnd env codes [0, 0] [] = (.success [5, 5] 2 3, { calls := 3, draws := 0 }) ∧
+    joinOr env codes [0, 0] [] = (.success [0, 0] 0 1, { calls := 2, draws := 0 }) ∧
+    (List.zipWith (fun r c => recognise (fun c => decide (0 < c)) 1 r c) rels codes = [true, true]) ∧
+    (∀ r ∈ rels, r.rhs.mentions r.i = false) := by
+  decide
 
 end MysticVerif.C13
